@@ -30,7 +30,7 @@ Worse(a, b) == IF Rank(b) > Rank(a) THEN b ELSE a     \* keeps the first of equa
 
 NoCfg == [bp |-> "", vars |-> << >>, exo |-> [form |-> "list", vals |-> << >>, v |-> 0],
           ics |-> << >>, icform |-> "float", horizon |-> 0, where |-> "default", reduce |-> TRUE,
-          late |-> 0]
+          late |-> 0, bmax |-> 0]
 
 ----------------------------------------------------------------------------
 (* Parse: conformance only *)
